@@ -442,9 +442,14 @@ func (sf *file) ReadAt(p []byte, offset int64) (int, error) {
 		if !ok {
 			break
 		}
+		// The chunk must contain the offset being read; otherwise the sizes calculated below get out of range.
+		cur := offset + int64(nr)
+		if chunkOffset < 0 || chunkOffset+chunkSize < chunkOffset || cur < chunkOffset || cur >= chunkOffset+chunkSize {
+			return 0, fmt.Errorf("invalid chunk (offset:%d,size:%d) for reading offset %d", chunkOffset, chunkSize, cur)
+		}
 		var (
 			id           = genID(sf.id, chunkOffset, chunkSize)
-			lowerDiscard = positive(offset - chunkOffset)
+			lowerDiscard = cur - chunkOffset
 			upperDiscard = positive(chunkOffset + chunkSize - (offset + int64(len(p))))
 			expectedSize = chunkSize - upperDiscard - lowerDiscard
 		)
@@ -472,6 +477,9 @@ func (sf *file) ReadAt(p []byte, offset int64) (int, error) {
 			}
 			if err := sf.gr.verifyAndCache(sf.id, ip, chunkDigestStr, id); err != nil {
 				return 0, err
+			}
+			if n == 0 {
+				break // no progress (EOF); avoid looping forever
 			}
 			nr += n
 			continue
